@@ -795,7 +795,7 @@ fn known_witnesses(known: &[KnownFinding], lines: &mut Vec<String>) -> Result<()
 pub fn run(opts: &Opts) -> i32 {
     let t0 = now();
     let thorough = opts.tier == Tier::Thorough;
-    let n = if opts.budget > 0 { opts.budget } else if thorough { 2_000_000 } else { 30_000 };
+    let n = if opts.budget > 0 { opts.budget } else if thorough { 12_000_000 } else { 300_000 };
     let seed = opts.seed;
     let known = load_known_findings();
     let mut known_lines = Vec::new();
